@@ -31,7 +31,7 @@ def warmup():
 
 @st.composite
 def grains(draw):
-    fam, cell = draw(gens.cells(families=gens.FAMILIES + ("triclinic", "triclinic", "monoclinic")))
+    fam, cell = draw(gens.cells(families=gens.FAMILIES + ("triclinic", "triclinic", "monoclinic", "pseudo", "pseudo")))
     U = draw(gens.rotations())
     mag = draw(st.sampled_from([0.0, 0.0, 1e-4, 1e-2]))
     sseed = draw(st.integers(0, 2 ** 31 - 1))
